@@ -364,7 +364,7 @@ class Round:
         if a.exact_const is not None and b.exact_const is not None:
             x, y = float(a.exact_const), float(b.exact_const)
             try:
-                v = {"+": x + y, "-": x - y, "*": x * y, "/": x / y}[op]
+                v = x + y if op == "+" else x - y if op == "-" else x * y if op == "*" else x / y
                 return self.const(Fraction(v))
             except (ZeroDivisionError, OverflowError, ValueError):
                 return self.opaque("div0")
@@ -377,7 +377,20 @@ class Round:
             else:
                 lo = a.lo - b.hi if a.lo is not None and b.hi is not None else None
                 hi = a.hi - b.lo if a.hi is not None and b.lo is not None else None
-            return self.rnd(e, "add" if op == "+" else "sub", lo, hi)
+            r = self.rnd(e, "add" if op == "+" else "sub", lo, hi)
+            if self.rounding:
+                # rounding is monotone and the identity on binary64 values: adding a non-negative
+                # (non-positive) quantity to the float a cannot round below (above) a -- and likewise for b
+                sgn = 1 if op == "+" else -1
+                if b.lo is not None and b.lo >= 0:
+                    self.add(r.t >= a.t if sgn > 0 else r.t <= a.t, defines=r)
+                if b.hi is not None and b.hi <= 0:
+                    self.add(r.t <= a.t if sgn > 0 else r.t >= a.t, defines=r)
+                if op == "+" and a.lo is not None and a.lo >= 0:
+                    self.add(r.t >= b.t, defines=r)
+                if op == "+" and a.hi is not None and a.hi <= 0:
+                    self.add(r.t <= b.t, defines=r)
+            return r
         if op == "*":
             for p, q in ((a, b), (b, a)):
                 if p.exact_const is not None:
@@ -398,8 +411,7 @@ class Round:
                     hi_t = z3.If(q.t >= 0, q.t * _q(p.hi), q.t * _q(p.lo))
                     self.add(z3.And(p.t >= _q(p.lo), p.t <= _q(p.hi)), defines=p)
                     return self._between("mulb", lo_t, hi_t)
-            self.nonlinear += 1
-            return self.rnd(a.t * b.t, "mul")
+            return self._sign_only("mul", a, b, False)
         if op == "/":
             if b.exact_const is not None:
                 c = b.exact_const
@@ -429,13 +441,23 @@ class Round:
                 # sign is preserved exactly (no underflow in the normal range)
                 self.add(z3.And(z3.Implies(a.t > 0, r.t > 0), z3.Implies(a.t < 0, r.t < 0), z3.Implies(a.t == 0, r.t == 0)), defines=r)
                 return r
-            self.nonlinear += 1
-            r = self.fresh("div")
-            u = _q(Fraction(1, 2 ** 53))
-            # r = (a/b)(1+d)  <=>  |r*b - a| <= U*|a|   (b != 0)
-            self.add(z3.Implies(b.t != 0, z3.And(r.t * b.t - a.t <= u * _abs(a.t), a.t - r.t * b.t <= u * _abs(a.t))), defines=r)
-            return r
+            return self._sign_only("div", a, b, True)
         raise ValueError(op)
+
+    def _sign_only(self, name, a, b, is_div):
+        """Product / quotient of two values without known constant bounds: only the sign rule is
+        kept (the magnitude is free) -- a sound over-approximation that keeps the queries linear."""
+        self.nonlinear += 1
+        r = self.fresh(name + "s")
+        pos = z3.Or(z3.And(a.t > 0, b.t > 0), z3.And(a.t < 0, b.t < 0))
+        neg = z3.Or(z3.And(a.t > 0, b.t < 0), z3.And(a.t < 0, b.t > 0))
+        cs = [z3.Implies(pos, r.t > 0), z3.Implies(neg, r.t < 0)]
+        if is_div:
+            cs.append(z3.Implies(z3.And(a.t == 0, b.t != 0), r.t == 0))
+        else:
+            cs.append(z3.Implies(z3.Or(a.t == 0, b.t == 0), r.t == 0))
+        self.add(z3.And(*cs), defines=r)
+        return r
 
     def _solver_lower_bound(self, b):
         for c in (Fraction(11, 10), Fraction(1), Fraction(1, 10), Fraction(1, 2 ** 40)):
